@@ -51,6 +51,7 @@ func codecOne(c *ctx, fam string, a []int) {
 		for _, n := range []string{"maxRegisters", "opCodeMax", "opMaxArgsA", "opMaxArgsB", "opMaxArgsC", "opMaxArgBx", "opMaxArgSbx", "opBitRk", "opMaxIndexRk"} {
 			consts = append(consts, int64(k[n]))
 		}
+		consts = append(consts, int64(lua.FieldsPerFlush), int64(lua.MaxArrayIndex))
 		// the Go port's own table must be the same table
 		for i, p := range lua.VerifOpProps() {
 			q := props[i]
